@@ -51,5 +51,11 @@ Content ==
                            ELSE k \in SetOf(t.rows[j].ids)                         \* the library's geometry for THIS tile matrix
                    /\ t.columns_ok /\ t.geommeta_ok
                    /\ t.rtree = t.nonempty
+(* C03, last sentence: the deviation the tool reports when it validates the set is the one of the deepest requested tile matrix
+   (computed by the harness with pointindex.DeviationStats; the tool prints it with six decimals when it is a pixel or more) *)
+Abs(x) == IF x < 0 THEN 0 - x ELSE x
+DeviationReported ==
+  C.valid_tms => /\ R.dev.warned = R.dev.need
+                 /\ R.dev.warned => (R.dev.matrix = R.dev.maxid /\ Abs(R.dev.micro - R.dev.exp_micro) <= 1)
 NoLibPanicOnSuccess == R.exit = 0 => ~R.lib_panic
 =============================================================================
